@@ -299,6 +299,7 @@ func checkC15(c *Ctx) {
 	c.c15RingWalks(hubFns)
 	c.c15ReplayRegister(hubFns, fHist, fList)
 	c.c15Broadcast(hubFns, fList)
+	c.c15DropFailed(hubFns, fList)
 	c.c15QueueCapacity()
 
 	// ---- D2..D4 over listener implementers
@@ -947,3 +948,140 @@ func keyField(k string, ops []eng.ChanOp) (string, *types.Var) {
 }
 
 var _ = fmt.Sprintf
+
+// c15DropFailed: the listener the hub unregisters after a relay failed must be the listener
+// whose call failed. The key of delete(Hub.listeners, k) is the range variable of the relay
+// loop; when it is read through a variable shared by all iterations from a closure that runs
+// after the loop (defer, go) it names whichever listener the loop visited last — a healthy
+// monitor is dropped and silently stops receiving, while the failed one stays registered.
+func (c *Ctx) c15DropFailed(hubFns []*ssa.Function, fList *types.Var) {
+	r, p := c.R, c.P
+	r.Rule("C15/ISOLATE/drop-the-failed", "every delete(Hub.listeners, k) removes the listener of the current relay-loop iteration: k is the loop's range key, read directly or through a per-iteration variable, never through a variable shared by the iterations from a deferred or go closure")
+	rangeKey := func(v ssa.Value) *ssa.Next {
+		for i := 0; i < 4; i++ {
+			switch x := v.(type) {
+			case *ssa.ChangeInterface:
+				v = x.X
+				continue
+			case *ssa.MakeInterface:
+				v = x.X
+				continue
+			}
+			break
+		}
+		ex, ok := v.(*ssa.Extract)
+		if !ok || ex.Index != 1 {
+			return nil
+		}
+		nx, ok := ex.Tuple.(*ssa.Next)
+		if !ok {
+			return nil
+		}
+		rg, ok := nx.Iter.(*ssa.Range)
+		if !ok || !eng.SameField(eng.LoadedField(rg.X), fList) {
+			return nil
+		}
+		return nx
+	}
+	n := 0
+	ord := map[string]int{}
+	var all []*ssa.Function
+	seen := map[*ssa.Function]bool{}
+	var add func(fn *ssa.Function)
+	add = func(fn *ssa.Function) {
+		if seen[fn] {
+			return
+		}
+		seen[fn] = true
+		all = append(all, fn)
+		for _, a := range fn.AnonFuncs {
+			add(a)
+		}
+	}
+	for _, fn := range hubFns {
+		add(fn)
+	}
+	for _, fn := range all {
+		fn := fn
+		eng.EachInstr(fn, func(in ssa.Instruction) {
+			call, ok := in.(*ssa.Call)
+			if !ok || eng.CalleeName(call.Common()) != "builtin.delete" || !eng.SameField(eng.LoadedField(call.Call.Args[0]), fList) {
+				return
+			}
+			n++
+			cons := siteCons(p, in, ord, "delete")
+			key := call.Call.Args[1]
+			if rangeKey(key) != nil {
+				r.Ok("C15/ISOLATE/drop-the-failed", cons, p.InstrPos(in), "the key is the relay loop's own range key")
+				return
+			}
+			u, ok := key.(*ssa.UnOp)
+			var cell *ssa.Alloc
+			if ok && u.Op == token.MUL {
+				cell = eng.CellOf(u.X)
+			}
+			if cell == nil {
+				if _, isPrm := key.(*ssa.Parameter); isPrm && fn.Parent() == nil {
+					// an explicit unregister operation: RemoveListener(l)
+					r.Ok("C15/ISOLATE/drop-the-failed", cons, p.InstrPos(in), "the key is the listener the caller named")
+					return
+				}
+				if fv, isFV := key.(*ssa.FreeVar); isFV {
+					_ = fv
+				}
+				r.Undecided("C15/ISOLATE/drop-the-failed", cons, p.InstrPos(in), "cannot tell which listener the key names")
+				return
+			}
+			var nx *ssa.Next
+			okStores := true
+			for _, st := range eng.CellStores(cell) {
+				k := rangeKey(st.Val)
+				if k == nil {
+					if _, isPrm := st.Val.(*ssa.Parameter); isPrm {
+						continue // the variable of an explicit unregister operation
+					}
+					okStores = false
+					continue
+				}
+				nx = k
+			}
+			if !okStores {
+				r.Undecided("C15/ISOLATE/drop-the-failed", cons, p.InstrPos(in), "the key variable is assigned something other than the relay loop's range key")
+				return
+			}
+			if nx == nil {
+				r.Ok("C15/ISOLATE/drop-the-failed", cons, p.InstrPos(in), "the key is the listener the caller named")
+				return
+			}
+			// is the delete run after the loop (deferred / go closure)?
+			late := false
+			for g := fn; g != nil && g.Parent() != nil; g = g.Parent() {
+				eng.EachInstr(g.Parent(), func(pi ssa.Instruction) {
+					switch y := pi.(type) {
+					case *ssa.Defer:
+						if mc, ok := y.Call.Value.(*ssa.MakeClosure); ok && mc.Fn == ssa.Value(g) {
+							late = true
+						}
+					case *ssa.Go:
+						if mc, ok := y.Call.Value.(*ssa.MakeClosure); ok && mc.Fn == ssa.Value(g) {
+							late = true
+						}
+					}
+				})
+			}
+			perIter := cell.Block() == nx.Block()
+			for _, h := range loopHeaders(cell.Block()) {
+				if h == nx.Block() {
+					perIter = true
+				}
+			}
+			switch {
+			case late && !perIter:
+				r.Bad("C15/ISOLATE/drop-the-failed", cons, p.InstrPos(in), "the listener to unregister is read from the loop variable %q, which all iterations share (module language version before 1.22), inside a closure that runs after the relay loop: it removes the listener the loop visited last, not the one that failed — a healthy monitor stops receiving events and the failed one stays registered", cell.Comment)
+			default:
+				r.Ok("C15/ISOLATE/drop-the-failed", cons, p.InstrPos(in), "the key variable holds the current iteration's listener when the delete runs")
+			}
+		})
+	}
+	r.Floor("C15/ISOLATE/drop-the-failed", "delete(Hub.listeners, …) sites", n, 1)
+}
